@@ -38,6 +38,8 @@ type tncConn struct {
 	mu       sync.Mutex
 	buffer   int
 	nWritten int
+
+	readBuf []byte // Remainder of a data frame that did not fit in the buffer given to Read.
 }
 
 // TODO: implement
@@ -53,20 +55,22 @@ func (conn *tncConn) Read(p []byte) (int, error) {
 		return 0, nil
 	}
 
+	// Serve what is left of the previous frame first.
+	if len(conn.readBuf) > 0 {
+		n := copy(p, conn.readBuf)
+		conn.readBuf = conn.readBuf[n:]
+		return n, nil
+	}
+
 	data, ok := <-conn.dataIn
 	if !ok {
 		return 0, io.EOF
 	}
 
-	if len(data) > len(p) {
-		panic("too large") // TODO: Handle
-	}
+	n := copy(p, data)
+	conn.readBuf = data[n:] // Keep what did not fit in p for the next call.
 
-	for i, b := range data {
-		p[i] = b
-	}
-
-	return len(data), nil
+	return n, nil
 }
 
 func (conn *tncConn) Write(p []byte) (int, error) {
